@@ -22,6 +22,8 @@ def cps(s):
 def values(rng, n):
     out = [0.0, 1.0, -1.0, 0.5, -0.5, 1.5, -1.5, 2.5, 0.125, 0.375, 999.995, 0.995, 9.995, 99.5, 0.045, 1e14, 123456789012345.0, 1234.5678, -1234.5678,
            0.001, 0.0005, 1e-7, 12345.0, 1000000.0, 999999.5, 0.9999999, 5e-5, 1e15 - 1, 0.3, 0.666666666666667, 0.1, 7.0, 255.0, -255.0, 65535.0, -2147483648.0, 4294967296.0]
+    # tiny magnitudes (C01's domain reaches down to 1e-290): automatic decimals show them with an exponent - incl. exponents ending in 0
+    out += [2.5e-10, 1e-10, -4.5e-20, 1e-20, 3.25e-30, 1.5e-100, -7.5e-200, 1.25e-9, 9.5e-11, 1e-19, 6.5e-101, 2e-290]
     for k in range(-6, 15):
         out += [10.0 ** k, -(10.0 ** k), float(Decimal(10) ** k - Decimal(10) ** (k - 14)) if k > -1 else 10.0 ** k]
     for _ in range(n):
